@@ -21,7 +21,7 @@ type sim struct{}
 func init() { core.Register(sim{}) }
 
 func (sim) Name() string    { return "addrsim" }
-func (sim) Props() []string { return []string{"C03", "C04", "C05", "C08"} }
+func (sim) Props() []string { return []string{"C03", "C04", "C05", "C08", "C10"} }
 
 // skipSigs: signatures of known findings the simulation is asked to look
 // beyond (in three runs out of four; the fourth still stops at them so that
@@ -94,6 +94,12 @@ func baseWeights(prop string) map[string]int {
 		w["importscript"], w["importpriv"] = 5, 4
 		w["convert"] = 1
 		w["setsynced"], w["syncquery"], w["acctquery"], w["lookupmiss"], w["rename"], w["crashrestart"] = 0, 0, 0, 0, 0, 0
+	case "C10":
+		w["rename"], w["markused"], w["setsynced"], w["acctquery"], w["syncquery"] = 5, 4, 5, 2, 1
+		w["extend"], w["importpriv"], w["importpub"], w["importscript"], w["chpass"] = 7, 5, 3, 5, 5
+		w["newaccount"], w["newraw"], w["newwatch"], w["newscope"] = 4, 2, 4, 3
+		w["birthday"], w["convert"] = 3, 1
+		w["derivecache"], w["lookupmiss"], w["crashrestart"], w["clock"] = 1, 1, 0, 0
 	case "C08":
 		w["rename"], w["markused"], w["setsynced"], w["acctquery"], w["syncquery"] = 6, 6, 6, 4, 2
 		w["extend"], w["restart"], w["crashrestart"], w["lookupmiss"] = 8, 3, 2, 2
@@ -101,6 +107,11 @@ func baseWeights(prop string) map[string]int {
 	}
 	return w
 }
+
+// mutating operation kinds: the ones property C10 enumerates faults for.
+var mutating = map[string]bool{"next": true, "extend": true, "newaccount": true, "newraw": true, "newwatch": true,
+	"rename": true, "importpriv": true, "importpub": true, "importscript": true, "markused": true, "setsynced": true,
+	"chpass": true, "newscope": true, "convert": true, "birthday": true}
 
 // Generate builds the plan of one seed. It runs the key oracle (to pick
 // seeds with a leading-zero intermediate key now and then) but never the
@@ -158,6 +169,10 @@ func (sim) Generate(prop, tier string, seed uint64) *core.Plan {
 	nops := r.Range(12, 60)
 	if r.Intn(5) == 0 {
 		nops = r.Range(60, 120)
+	}
+	if prop == "C10" {
+		// every selected operation is executed n+2 times
+		nops = r.Range(10, 40)
 	}
 	faults := prop == "C08"
 	mode := func() (int64, int64) {
@@ -221,7 +236,7 @@ func (sim) Generate(prop, tier string, seed uint64) *core.Plan {
 			}
 		case "chpass":
 			m, kk := mode()
-			a = []int64{int64(r.Intn(2)), int64(r.Intn(4)), m, kk}
+			a = []int64{int64(r.Intn(2)), int64(r.Intn(4)), m, kk, int64(r.Intn(3))}
 			if prop == "C08" {
 				// Passphrases are not among the things property C08 compares
 				// across a restart; a rolled-back change belongs to C10.
@@ -253,6 +268,15 @@ func (sim) Generate(prop, tier string, seed uint64) *core.Plan {
 		case "setsynced":
 			m, kk := mode()
 			a = []int64{int64(r.Intn(8)), m, kk, int64(r.Intn(2))}
+			if prop == "C10" && a[0] == 7 {
+				// SetSyncedTo(nil) stores a garbage timestamp (known C08
+				// finding); keep it out of the comparison with a reopened
+				// manager that closes every enumeration
+				a[0] = 0
+			}
+		case "birthday":
+			m, kk := mode()
+			a = []int64{int64(r.Intn(2)), int64(r.Intn(1000)), m, kk}
 		case "syncquery", "restart":
 		case "crashrestart":
 			a = []int64{int64(r.Intn(12))}
@@ -264,7 +288,11 @@ func (sim) Generate(prop, tier string, seed uint64) *core.Plan {
 		case "clock":
 			a = []int64{int64(r.Range(1, 7200))}
 		}
-		p.Ops = append(p.Ops, core.Op{K: k, A: a})
+		op := core.Op{K: k, A: a}
+		if prop == "C10" && mutating[k] && (tier == "thorough" || r.Intn(3) == 0) {
+			op.S = []string{"enum"}
+		}
+		p.Ops = append(p.Ops, op)
 		// a lock is most interesting right after key material was loaded;
 		// an unlock right after a locked derivation
 		if k == "lock" && r.Intn(3) == 0 {
@@ -303,7 +331,12 @@ func leadingZeroSeed(planSeed uint64, net int64) (k int64, scopeIdx int, coinLev
 
 // ---------------------------------------------------------------- evidence
 
-func (sim) Level(prop string) string { return "exploration" }
+func (sim) Level(prop string) string {
+	if prop == "C10" {
+		return "fault_enumeration"
+	}
+	return "exploration"
+}
 
 func (sim) Rule(prop string) string {
 	switch prop {
@@ -313,6 +346,8 @@ func (sim) Rule(prop string) string {
 		return "addrsim/C04: the database file image at commit boundaries is searched for every secret (seed, passphrases, master/purpose/coin-type/account/branch/address/imported private keys raw, hex, base58, WIF; secret scripts) and quasi-secret (xpubs, public keys, hashes, address strings) of the run; a copy converted to watching-only must keep all addresses and refuse every private access."
 	case "C05":
 		return "addrsim/C05: lock model {locked, unlocked, watch-only}; private accessors probed after every operation; wrong passphrases of all shapes; memory probe (overlay file in package waddrmgr) aliases every clear-text secret buffer while unlocked and requires it zeroed after Lock / failed Unlock."
+	case "C10":
+		return "addrsim/C10: fault enumeration over the mutating address-manager operations of a fault-free host history (quick: about one in three selected in the plan, thorough: all): commit failure, then the k-th mutating database call failing for k = 1, 2, ... until the attempt that is not hit, which is the retry and commits. After every failed attempt: namespace dump == pre-state dump, the running manager answers the restart observer's query set as before, same lock state, passphrases as before; swallowed faults must equal the full effect; the retry must give the result the committed model predicts; finally running manager == manager reopened on the committed image. Counters enum.ops / enum.k_positions / enum.op.<kind> / enum.n<=N.<kind> give the covered positions per operation kind."
 	case "C08":
 		return "addrsim/C08: after committed operations (every 4th in quick, all in thorough) and after every rolled-back one, the latest commit image is opened by a fresh waddrmgr.Open and both managers answer the same query set; after a rollback the next committed issuing call must equal what the fresh manager issues on a scratch copy."
 	}
@@ -337,8 +372,11 @@ var probesByProp = map[string][]string{
 		"image-with-freed-pages", "imported-xpub-account", "custom-scope", "crash-restart"},
 	"C05": {"failed-unlock-while-unlocked", "lock-with-cached-derived-key", "lock-with-script-address-loaded",
 		"memory-check-after-lock", "memory-check-after-failed-unlock", "passphrase-change-while-locked",
+		"unlock-new-passphrase-while-still-unlocked", "unlock-right-while-unlocked",
 		"passphrase-change-while-unlocked", "old-public-passphrase-after-restart", "watch-only-conversion",
 		"derived-while-locked-then-unlocked", "imported-xpub-account", "restart"},
+	"C10": {"fault-inside-next-after-first-address", "fault-inside-chpass-between-the-puts", "fault-inside-convert",
+		"fault-inside-rename-after-index-delete", "imported-xpub-account", "custom-scope", "restart"},
 	"C08": {"dry-run-then-real", "rename-then-lookup-old-and-new", "markused-then-cached-read",
 		"failed-commit-of-SetSyncedTo", "next-after-rollback-compared", "observed-after-rollback:closure-error",
 		"observed-after-rollback:commit-failure", "observed-after-rollback:write-failure", "restart", "crash-restart",
@@ -361,6 +399,14 @@ func (sim) Explain(prop string, stats map[string]int64) string {
 		s += fmt.Sprintf("%d private-accessor probes; ", stats["c05.accessor-probed"])
 	case "C08":
 		s += fmt.Sprintf("%d restart observations; ", stats["c08.observations"])
+	case "C10":
+		s += fmt.Sprintf("%d operation instances enumerated, %d fault positions (write failures) plus one commit failure each; per kind: ", stats["enum.ops"], stats["enum.k_positions"])
+		for _, k := range core.SortedKeys(stats) {
+			if strings.HasPrefix(k, "enum.op.") {
+				s += fmt.Sprintf("%s=%d ", strings.TrimPrefix(k, "enum.op."), stats[k])
+			}
+		}
+		s += "; "
 	}
 	var known []string
 	for _, k := range core.SortedKeys(stats) {
